@@ -1,5 +1,5 @@
-// contract of v9::OptionsData::parse -- ASSUMED frame (nom-derive many0 over an FnMut closure: outside Verus);
-// the expansion reads parser.options_templates only (bounded stand-in B.v9.optionsdata_frame)
+// contract of v9::OptionsData::parse as used by V.v9.flowsetbody (the frame); proved, together with the full
+// decoding contract optionsdata_post, by V.v9.optionsdata
 pub fn parse<'a>(orig_i: &'a [u8], parser: &mut V9Parser, flowset_id: u16) -> (r: IResult<&'a [u8], OptionsData>)
     ensures
         *final(parser) == *old(parser),
